@@ -49,7 +49,7 @@ def opts(tier):
     o.max_chunks = 2
     o.nasty_names = 0.03
     o.pad_p = 0.0
-    return o
+    return gen.deepen(o, tier)
 
 
 def generate(rng, tier):
